@@ -423,6 +423,45 @@ func runC03(c *Ctx) {
 			c.Direct(out == "-", "panic on a well-sealed request with an unusual inner plaintext", map[string]any{"inner": hx(pt), "request": hx(req), "panic": firstLines(lastPanic, 10)})
 		}
 	}
+	// signature scalars on and around the range boundaries, on every curve and through every verifier a peer reaches
+	{
+		for _, cn := range curveNames {
+			cv := curves[cn]
+			N, P := cv.Params().N, cv.Params().P
+			sz := (cv.Params().BitSize + 7) / 8
+			sk, _ := ecdsa.CreateKey(cv, r.Bytes(sz-1))
+			one := big.NewInt(1)
+			vals := []*big.Int{big.NewInt(0), one, new(big.Int).Sub(N, one), N, new(big.Int).Add(N, one), new(big.Int).Lsh(N, 1), P,
+				new(big.Int).Sub(new(big.Int).Lsh(one, uint(8*sz)), one), new(big.Int).Neg(one), new(big.Int).Neg(N)}
+			digest := r.Bytes(sz)
+			for _, x := range vals {
+				for _, y := range vals {
+					out := c.Op(fmt.Sprintf("c03.probe ecdsa.Verify(boundary) %s %s %s", cn, bigHex(x), bigHex(y)), func() string {
+						ecdsa.Verify(&sk.PublicKey, digest, x, y)
+						if x.Sign() >= 0 && y.Sign() >= 0 {
+							ecdsa.VerifyASN1(&sk.PublicKey, digest, derSeq(append(derInt(x), derInt(y)...)))
+						}
+						return "-"
+					})
+					c.Count("sig-boundary:" + cn)
+					c.Direct(out == "-", "panic on a signature with boundary scalars", map[string]any{"curve": cn, "r": bigHex(x), "s": bigHex(y), "panic": firstLines(lastPanic, 10)})
+					if cn != "P-384" || x.Sign() < 0 || y.Sign() < 0 || x.BitLen() > 384 || y.BitLen() > 384 {
+						continue
+					}
+					sig := append(x.FillBytes(make([]byte, 48)), y.FillBytes(make([]byte, 48))...)
+					req := append(append([]byte{}, w.resp["req3"][:len(w.resp["req3"])-96]...), sig...)
+					out = c.Op("c03.probe type3.VerifyRequest+Evaluate(boundary-signature) "+hx(sig), func() string {
+						q := *w.st3.Request()
+						q.Signature = sig
+						type3.NewRateLimitedAttester(newMemCache()).VerifyRequest(q, w.cl3.blind, w.cl3.pubEnc, nil)
+						w.env.issuer.Evaluate(req)
+						return "-"
+					})
+					c.Direct(out == "-", "panic on a type-3 request whose signature has boundary scalars", map[string]any{"signature": hx(sig), "panic": firstLines(lastPanic, 10)})
+				}
+			}
+		}
+	}
 	// ---- literal models: outcome and value compared with the Lean model ----
 	for _, in := range c03Mutations(r, w.resp["req5"], c.Pick(300, 5000), c.Thorough()) {
 		c.Run("c03.req5", hx(in))
